@@ -1,0 +1,89 @@
+//go:build verif
+
+package version
+
+import (
+	"os"
+
+	"github.com/lindb/lindb/pkg/bufioutil"
+)
+
+// VerifFSHook is called before (before=true) and after (before=false) a file-system operation.
+type VerifFSHook func(op, path string, before bool)
+
+type verifWriter struct {
+	bufioutil.BufioWriter
+	path string
+	h    VerifFSHook
+}
+
+func (w *verifWriter) Write(p []byte) (int, error) {
+	w.h("manifestWrite", w.path, true)
+	n, err := w.BufioWriter.Write(p)
+	w.h("manifestWrite", w.path, false)
+	return n, err
+}
+
+func (w *verifWriter) Sync() error {
+	w.h("manifestSync", w.path, true)
+	err := w.BufioWriter.Sync()
+	w.h("manifestSync", w.path, false)
+	return err
+}
+
+func (w *verifWriter) Close() error {
+	w.h("manifestClose", w.path, true)
+	err := w.BufioWriter.Close()
+	w.h("manifestClose", w.path, false)
+	return err
+}
+
+// VerifSetFSHook wraps the I/O seams of the version set; nil restores the production functions.
+func VerifSetFSHook(h VerifFSHook) {
+	if h == nil {
+		writeFileFunc = os.WriteFile
+		renameFunc = os.Rename
+		newBufferWriterFunc = bufioutil.NewBufioEntryWriter
+		return
+	}
+	writeFileFunc = func(name string, data []byte, perm os.FileMode) error {
+		h("writeFile", name, true)
+		err := os.WriteFile(name, data, perm)
+		h("writeFile", name, false)
+		return err
+	}
+	renameFunc = func(oldpath, newpath string) error {
+		h("rename", newpath, true)
+		err := os.Rename(oldpath, newpath)
+		h("rename", newpath, false)
+		return err
+	}
+	newBufferWriterFunc = func(fileName string) (bufioutil.BufioWriter, error) {
+		h("manifestCreate", fileName, true)
+		w, err := bufioutil.NewBufioEntryWriter(fileName)
+		h("manifestCreate", fileName, false)
+		if err != nil {
+			return nil, err
+		}
+		return &verifWriter{BufioWriter: w, path: fileName, h: h}, nil
+	}
+}
+
+// VerifActiveVersionFiles returns the file numbers referenced by any active version of the family.
+func VerifActiveVersionFiles(fv FamilyVersion) (rs []int64) {
+	for _, f := range fv.GetAllActiveFiles() {
+		rs = append(rs, f.GetFileNumber().Int64())
+	}
+	return rs
+}
+
+// VerifNumActiveVersions returns how many versions the family version keeps alive.
+func VerifNumActiveVersions(fv FamilyVersion) int {
+	v, ok := fv.(*familyVersion)
+	if !ok {
+		return -1
+	}
+	v.mutex.RLock()
+	defer v.mutex.RUnlock()
+	return len(v.activeVersions)
+}
